@@ -27,7 +27,8 @@ RULE = ("Hypothesis draws an operation and operands: scalar quantities in one of
         "series (length 1-30, same/overlapping/disjoint/shifted indexes, naive or UTC-aware) or the empty value. The "
         "result's physical value (base units, per timestamp) and dimensionality are compared with reference arithmetic "
         "written in the harness (missing hours = 0 for + and *), operands must keep their physical value, incompatible "
-        "dimensions must raise, and commutativity / neutral / absorbing / additivity-of-totals laws are checked. "
+        "dimensions must raise (also in the scalar max helper, drawn with another unit of the same dimension or another "
+        "dimension), and commutativity / neutral / absorbing / additivity-of-totals laws are checked. "
         "Non-trivial = operands with different units of the same dimension or non-identical indexes; distinct by case hash.")
 ASSUMPTIONS = ["pint's conversion factors are the reference for unit conversion",
                "hourly subtraction is only exercised on identical indexes (the property states alignment for + and *)",
@@ -284,8 +285,9 @@ def cases(draw):
         return {"kind": "binop", "op": op, "a": a, "b": b}
     if kind == "helper":
         h = draw(st.sampled_from(["sum", "mean", "max", "abs", "ceil", "neg", "shift", "cmp_max", "cmp_min",
-                                  "round", "copy", "copy_scalar", "to", "sum_builtin", "alias_chain", "alias_chain"]))
-        a = draw(hourly()) if h != "copy_scalar" else draw(scalar())
+                                  "round", "copy", "copy_scalar", "to", "sum_builtin", "alias_chain", "alias_chain",
+                                  "scalar_max", "scalar_max"]))
+        a = draw(hourly()) if h not in ("copy_scalar", "scalar_max") else draw(scalar())
         c = {"kind": "helper", "h": h, "a": a}
         if h == "shift":
             c["shift"] = draw(st.sampled_from([[0.0, "hour"], [1.0, "hour"], [59.0, "min"], [60.0, "min"],
@@ -293,6 +295,9 @@ def cases(draw):
                                                [3600.0, "s"], [7199.0, "s"]]))
         if h in ("cmp_max", "cmp_min"):
             c["b"] = draw(st.one_of(hourly(family=a["fam"], ref=a), empty()))
+        if h == "scalar_max":
+            # mostly another unit of the same dimension (numeric and physical order may disagree), sometimes another one
+            c["b"] = draw(scalar(family=a["fam"] if draw(st.floats(0, 1)) < 0.8 else None))
         if h in ("to", "alias_chain"):
             c["unit"] = draw(st.sampled_from(UNITS[a["fam"]]))
         if h == "alias_chain":
@@ -398,6 +403,27 @@ def check(c, ctx):
                 keys = set(vals) | set(other)
                 exp = ("hourly", dim, {k: fn(vals.get(k, 0.0), other.get(k, 0.0)) for k in keys}, ra[3])
                 res = a.np_compared_with(b, "max" if h == "cmp_max" else "min")
+            elif h == "scalar_max":
+                b = make(c["b"])
+                rb = ref_value(c["b"])
+                if rb[1] != dim:
+                    labels.append("scalar_max=incompatible")
+                    for x, y in ((a, b), (b, a)):
+                        try:
+                            r = x.compare_with_and_return_max(y)
+                        except Exception:
+                            continue
+                        fail("no_dimension_error", "max of %s and %s gave %s instead of raising" % (c["a"], c["b"], r))
+                    ctx.case(c, True, labels)
+                    return
+                labels.append("scalar_max=" + ("other_unit" if c["a"]["unit"] != c["b"]["unit"] else "same_unit"))
+                exp, res = ("scalar", dim, max(ra[2], rb[2])), a.compare_with_and_return_max(b)
+                why = same(observed(b.compare_with_and_return_max(a)), exp)
+                if why:
+                    fail("wrong_result", "max(%s, %s), operands swapped: %s" % (c["b"], c["a"], why))
+                why = same(observed(b), rb, zero_fill=False)
+                if why:
+                    fail("operand_changed", "second operand of scalar max changed: %s" % why)
             elif h == "round":
                 exp = ("hourly", dim, {k: round(v, 2) * f for k, v in zip(sorted(vals), kept_values(c["a"]))}, ra[3])
                 res = round(a, 2)
